@@ -534,6 +534,40 @@ def finalize_adapters(run, it):
                    text="for every order of the transition keys, incl. a key with an empty adapter list first: one finalize call per (transition, adapter) with matching arguments")
     it.explore(h, "_finalize_adapters")
 
+    def h_fail(ctx):
+        """an adapter that cannot finalize (AdaptationError: e.g. fewer than two samples for a variance estimate) must stop the run: if the failure were
+        swallowed the next stage would sample with parameters that were never finalized (the initial defaults)"""
+        which = ctx.choose(3, "failing-adapter")
+        mod = it.module(MOD)
+        ex = Exec(it, ctx, mod, mod.env, "harness")
+        calls = []
+        box = {}
+
+        def mk_adapter(name, fails):
+            def fin(ex_, states, chain_states, transition, rngs):
+                calls.append(name)
+                if fails:
+                    box["exc"] = adaptation_error(ex_)
+                    raise PyRaise(box["exc"])
+            return Opaque(name, finalize=Native(fin, name + ".finalize"))
+        names = [("integration", 0), ("integration", 1), ("other", 0)]
+        adapters = {"integration": [mk_adapter("integration-adapter0", which == 0), mk_adapter("integration-adapter1", which == 1)],
+                    "other": [mk_adapter("other-adapter0", which == 2)]}
+        ad_states = {k: [[f"{k}-ad{j}-chain{c}" for c in range(2)] for j in range(len(v))] for k, v in adapters.items()}
+        transitions = {k: Opaque(f"transition<{k}>") for k in adapters}
+        try:
+            ex.call(mod.resolve("_finalize_adapters", ctx), [ad_states, [Opaque("cs0"), Opaque("cs1")], adapters, transitions, [Opaque("rng0"), Opaque("rng1")]], {})
+            raised = None
+        except PyRaise as pr:
+            raised = pr.exc
+        ok = raised is not None and raised is box.get("exc")
+        ctx.run.ob(tag + "/a-failing-finalize-stops-the-run", core.DISCHARGED if ok else core.FAILED, "pyvc",
+                   witness={"failing_adapter": list(names[which])},
+                   detail="" if ok else f"AdaptationError raised by {names[which]}.finalize " + ("was swallowed" if raised is None else f"left as {exc_name(raised)}") +
+                   f"; finalize calls made: {calls} (the following stage would run with parameters that were not finalized)",
+                   text="an AdaptationError raised by any adapter's finalize leaves _finalize_adapters unchanged")
+    it.explore(h_fail, "_finalize_adapters.failing", roots=[[0], [1], [2]])
+
 
 # allocation of trace / statistics arrays (real _init_stats, _init_traces, _generate_memmap_filenames, _get_valid_filename)
 
